@@ -895,6 +895,8 @@ class TT():
             torch.tensor: the values of the tensor
 
         """
+        if len(indices) > 0 and len(indices[0]) != len(self.__N):
+            raise InvalidArguments('The number of indices per entry must be equal to the number of dimensions.')
         result = apply_mask(self.cores, self.__R, indices)
         return result
 
